@@ -2767,7 +2767,13 @@ func (w *World) ruleIndexRefusalUnconditional(rule string, d *dkgAnchors) {
 			}
 			p := idx.Name()
 			k := 0
-			for _, r := range returns(fn) {
+			var own []*ssa.Return
+			instrsFlat(fn, func(ins ssa.Instruction) {
+				if r, ok := ins.(*ssa.Return); ok {
+					own = append(own, r) // the handler's own returns (a `return nil` inside a guard helper is not one)
+				}
+			})
+			for _, r := range own {
 				if len(r.Results) == 0 || !isNilConst(r.Results[len(r.Results)-1]) {
 					continue
 				}
